@@ -33,7 +33,7 @@ def run(ctx):
     d = vlib.scratch_dir()
     try:
         consts = dict(Seed=str(ctx.seed), NSample="3000" if ctx.quick else "20000", MaxLen="2" if ctx.quick else "3",
-                      PairN="10", NRandStr="40" if ctx.quick else "400",
+                      PairN="12", NRandStr="40" if ctx.quick else "400",
                       SynFolN="4" if ctx.quick else "7", SynLongFolN="1" if ctx.quick else "4",
                       SynLongAllVias="FALSE" if ctx.quick else "TRUE")
         jobs = [("gen", None)]
@@ -109,13 +109,13 @@ def run(ctx):
         ev.cov(evaluations=tot["rec"], distinct_nontrivial=tot["nontrivial"], traces_validated_against_impl=tot["rec"],
                rule="one unit record per generated text (boundary code points, seeded scalar sample, strings over the boundary alphabet, "
                     "syntax-spelling texts = 18 PDF keywords/delimiters x 3 codings x followers x 3 positions x 3 length classes whose UTF-16BE/ASCII "
-                    "bytes spell the syntax) plus one e2e record per carrier (property, keyword, bookmark) that keeps the text verbatim by design"
+                    "bytes spell the syntax) plus one e2e record per carrier (property, keyword, bookmark title via api.Bookmarks and via api.ExportBookmarksJSON) that keeps the text verbatim by design"
                     + ("" if ctx.quick else "; plus one unit record for every Unicode scalar value (order and completeness checked by TLC: LexTextTrace!InOrder)")
                     + "; non-trivial = distinct texts containing a code point >= U+0080",
                exhaustive=not ctx.quick, e2e_records=tot["e2e"], distinct_texts=tot["distinct"], scalar_values_swept=tot["swept"])
         ev.assume("expected bytes come from spec/Lex.tla (TextBytes = BOM + UTF-16BE with surrogate arithmetic, Utf8Bytes, RefUnescape)",
                   "e2e carriers per text are chosen by LexText!ViasFor: keywords only for texts without ',', ';', CR and surrounding blanks, bookmark titles only for "
-                  "texts without control characters (split/trimmed resp. dropped by design); properties always",
+                  "texts without control characters (split/trimmed resp. dropped by design); properties for every text that is not blank (blank values are refused by the API)",
                   "harness built with go1.26.8")
     finally:
         shutil.rmtree(d, ignore_errors=True)
